@@ -79,11 +79,27 @@ def fresh(seed, s, var):
 
 
 def est_apply(name, a):
-    return {'max': np.max, 'mean': np.mean,
-            'median': lambda x: np.percentile(x, 50),
-            'minabs': lambda x: np.min(np.abs(x)),
-            'x0y0z1': lambda x: x[0, 0, -1],
-            '<customest>': custom_est}[name](a)
+    ab = np.abs(a)
+    table = {'max': a.max(), 'mean': a.mean(), 'min': a.min(),
+             'sum': a.sum(), 'std': a.std(), 'var': a.var(),
+             'quartile1': np.percentile(a, 25), 'median': np.median(a),
+             'quartile3': np.percentile(a, 75),
+             'maxabs': ab.max(), 'minabs': ab.min(), 'meanabs': ab.mean(),
+             'sumabs': ab.sum(), 'stdabs': ab.std(), 'varabs': ab.var(),
+             'quartile1abs': np.percentile(ab, 25),
+             'medianabs': np.median(ab),
+             'quartile3abs': np.percentile(ab, 75),
+             '<customest>': custom_est(a)}
+    for i, j, k in itertools.product((0, 1), repeat=3):
+        table[f'x{i}y{j}z{k}'] = a[-i, -j, -k]
+    return table[name]
+
+
+ALL_BUILTIN = ['max', 'mean', 'quartile1', 'median', 'quartile3', 'min',
+               'sum', 'std', 'var', 'maxabs', 'minabs', 'meanabs',
+               'quartile1abs', 'medianabs', 'quartile3abs', 'sumabs',
+               'stdabs', 'varabs'] + [f'x{i}y{j}z{k}' for i in (0, 1)
+                                     for j in (0, 1) for k in (0, 1)]
 
 
 def ordered_partitions(items, kmax):
@@ -127,8 +143,9 @@ def run_case(task):
     table, param, order = build_table(seed, nsteps, perm, tkey)
     fd = make_fd(param)
     before = snapshot(table)
+    est_names = ALL_BUILTIN if extra == 'all-estimators' else ESTS
     ests = [({'customest': custom_est} if e == '<customest>' else e)
-            for e in ESTS]
+            for e in est_names]
     data = table
     try:
         with gc.quiet():
@@ -178,7 +195,7 @@ def run_case(task):
                 bad.append(('value-differs-from-fresh', name))
     scal_cols = [k for k in data if np.ndim(data[k][0]) == 3]
     for k in scal_cols:
-        for e in ESTS:
+        for e in est_names:
             en = 'customest' if e == '<customest>' else e
             col = f"{k}_{en}"
             if col not in data:
@@ -218,6 +235,9 @@ def main(tier):
                 for part in few:
                     for extra in (None, 'estimates-only', 'repeat'):
                         tasks.append((seed, nsteps, perm, tkey, part, extra))
+    for nsteps in (1, 3):
+        tasks.append((seed, nsteps, tuple(range(nsteps))[::-1], 'it',
+                      parts[0], 'all-estimators'))
     results = runner.pmap(run_case, tasks, chunksize=4)
     nviol = 0
     for t, r in zip(tasks, results):
@@ -230,7 +250,7 @@ def main(tier):
                           f"calls={part} extra={extra}: {b}"[:400],
                           {'task': [nsteps, list(perm), tkey,
                                     [list(x) for x in part], extra]})
-        if r['final'] is not None:
+        if r['final'] is not None and extra != 'all-estimators':
             groups.setdefault((nsteps, tkey), []).append((r['final'], t))
     # (v) every split (and every row order) gives the same final table
     for (nsteps, tkey), lst in groups.items():
